@@ -75,6 +75,25 @@ def search(ctx, N):
                 if ctx.violation('nan-column:%s' % method, 'Derivative(np.log, method=%r)([2.0, 1e-5, 0.7])[%d] = %r but the scalar evaluation gives %r: an element whose estimates are all NaN disturbs the other elements' % (method, i, float(v[i]), ref[i]),
                                  {'x': x.tolist(), 'result': [float(t) for t in v], 'scalar': ref}):
                     break
+    # one element whose trial estimates are PARTLY NaN (its larger steps leave the domain of f) among ordinary elements of very different
+    # magnitude: the ordinary elements must be bit-identical to their scalar evaluations (real-step methods)
+    for fname, f, border, others in (('sqrt', np.sqrt, [0.03, 0.3], [1.0, 40.0, 100.0, 1000.0]), ('log', np.log, [0.02, 0.2], [1.0, 30.0, 500.0]),
+                                     ('1/(x-0.25)', lambda t: 1.0 / (t - 0.25), [0.27], [3.0, 40.0, 900.0])):
+        for method, n, order in (('central', 1, 2), ('central', 2, 4), ('central', 3, 2), ('backward', 3, 2), ('forward', 1, 2)):
+            d = nd.Derivative(f, n=n, method=method, order=order)
+            for b in border:
+                for pos in range(len(others) + 1):
+                    xs = np.array(others[:pos] + [b] + others[pos:])
+                    with np.errstate(all='ignore'):
+                        v = d(xs)
+                        ref = [float(d(float(t))) for t in xs]
+                    ctx.count(1, ('search', 'partly-nan-element', method, n))
+                    bad = [i for i in range(xs.size) if i != pos and not (float(v[i]).hex() == ref[i].hex() or (np.isnan(v[i]) and np.isnan(ref[i])))]
+                    if bad:
+                        i = bad[0]
+                        if ctx.violation('coupling-partly-nan:%s' % method, 'nd.Derivative(%s, n=%d, order=%d, method=%r)(%r): element %d is %r inside the array but %r when evaluated alone (another element has NaN among its trial estimates)' % (
+                                fname, n, order, method, xs.tolist(), i, float(v[i]), ref[i]), {'f': fname, 'x': xs.tolist(), 'n': n, 'order': order, 'method': method, 'element': i}):
+                            break
     # extra positional and keyword arguments: every evaluation, every n (n = 0 takes a separate code path), every method
     for n in (0, 1, 2, 3):
         for method in ('central', 'forward', 'complex', 'multicomplex'):
